@@ -597,6 +597,39 @@ func runC16w(toks []string) string {
 			}
 		}
 		return "res=true ms=10"
+	case "cbwait":
+		// WaitUtil with a zero / negative / short timeout called while the closing call's callback is still running
+		// (the channel is closed already, the state word is not yet "closed"): by the callback itself and by a waiter
+		// that has just been released by <-C(). The close has happened: every call must return true. No timing involved.
+		// (Only initialised objects: on a zero-value object C()/WaitUtil called from inside the callback would need the
+		// mutex the closing call holds -- calling back into the object before it is initialised is outside the property.)
+		falses := 0
+		for round := 0; round < 200; round++ {
+			var w loom.WaitClose
+			c := w.C()
+			released := make(chan bool, 1)
+			if c != nil {
+				go func() {
+					<-c
+					released <- w.WaitUtil(0) && w.WaitUtil(-time.Second) && w.WaitUtil(time.Millisecond)
+				}()
+			} else {
+				released <- true
+			}
+			w.Close(func() error {
+				if !w.WaitUtil(0) || !w.WaitUtil(-time.Second) || !w.WaitUtil(time.Millisecond) {
+					falses++
+				}
+				if !<-released { // the released waiter's calls also run inside the callback's window
+					falses++
+				}
+				return nil
+			})
+		}
+		if falses > 0 {
+			return fmt.Sprintf("res=false ms=%d", falses)
+		}
+		return "res=true ms=0"
 	case "closedtiny":
 		// objects closed BEFORE the call, tiny / zero / negative timeouts: the close happened before the timeout, so every
 		// call must return true (with both the closed channel and the timer ready a select would pick at random)
